@@ -290,7 +290,61 @@ func tableApp(r *core.Run) {
 		r.AddStates(1)
 	}
 	r.Sample(kase{"T-app", "(map 'list (lambda (x) x) '(a b))"})
+	tableNum(r)
 	tableAppExt(r) // app_ext.go
+}
+
+// T-num: the numeric tower at its boundaries, in BOTH tiers: every numeric builtin of arity <= 3 over boundary
+// integers (int64 limits, 2^53 neighbours), small ints, and floats (fractions, a huge one, zero).
+var numValues = []string{"0", "1", "-1", "2", "3", "7", "9223372036854775807", "-9223372036854775808", "9007199254740993", "-9007199254740992",
+	"0.5", "2.5", "-2.5", "1e21", "0.0"}
+
+var numTable = []bsig{{"+", 0, 3}, {"-", 0, 3}, {"*", 0, 3}, {"/", 1, 3}, {"mod", 2, 2}, {"pow", 2, 2}, {"max", 1, 3}, {"min", 1, 3},
+	{"<", 2, 2}, {"<=", 2, 2}, {">", 2, 2}, {">=", 2, 2}, {"=", 2, 2}}
+
+func tableNum(r *core.Run) {
+	r.Bound("T-num_value_alphabet", len(numValues))
+	r.Bound("T-num_callables", len(numTable))
+	for _, b := range numTable {
+		for k := b.min; k <= b.max; k++ {
+			b, k := b, k
+			total := gen.Pow(len(numValues), k)
+			core.ParallelRange(r, total, nil, func(_ struct{}, i int64) {
+				ds := make([]int, k)
+				bases := make([]int, k)
+				for x := range bases {
+					bases[x] = len(numValues)
+				}
+				gen.Radix(i, bases, ds)
+				var sb strings.Builder
+				sb.WriteString("(" + b.name)
+				for _, d := range ds {
+					sb.WriteString(" " + numValues[d])
+				}
+				sb.WriteString(")")
+				src := sb.String()
+				ref, real := runRef(src), runReal(src)
+				r.AddEvals(1)
+				r.AddTransitions(1)
+				r.AddTraces(1)
+				r.Outcome("T-num:" + ref.Class + "/" + real.Class)
+				if ref.Class != "unspecified" {
+					r.Nontrivial(src)
+				}
+				if agree(ref, real) {
+					return
+				}
+				cls := fmt.Sprintf("T-num:%s/%d:%s-vs-%s", b.name, k, ref.Class, real.Class)
+				if r.Seen(cls) >= 2 {
+					r.CountOnly(cls)
+					return
+				}
+				r.Violate("c01", cls, kase{"T-num", src}, "reference: "+ref.String(), "elps: "+real.String(), "")
+			})
+			r.AddStates(1)
+		}
+	}
+	r.Sample(kase{"T-num", "(* 9223372036854775807 2 0.5)"})
 }
 
 // ---------------------------------------------------------------------------
